@@ -111,7 +111,7 @@ fn generate(rng: &mut Rng) -> ConnScenario {
     let mut services = services;
     if rng.chance(1, 4) {
         let t = services.localization.messages.get_mut("en").expect("default table");
-        t.insert("disconnect_timeout".into(), (*rng.pick(&["Zeit\u{fc}berschreitung \u{2013} keine Antwort", "timeout \u{2764}", "plain ascii timeout"])).to_string());
+        t.insert("disconnect_timeout".into(), (*rng.pick(&["Zeit\u{fc}berschreitung \u{2013} keine Antwort", "timeout \u{2764}", "plain ascii timeout", "[Passage] Timed out", "\"slow\" client", "408", "[]"])).to_string());
     }
     ConnScenario {
         seed: rng.next_u64(),
